@@ -1,7 +1,9 @@
 """Directed histories: fault placement that uniform sampling reaches too rarely - a cache fault *between* two operations that
 depend on the affected table, and the *same* option object handed to a re-used loss / algorithm object on either side of
-a different one.  Only the shape of the history is fixed; objects, tables and arguments are drawn from the seed."""
+a different one, and algorithm options that differ only in how the physical projection is carried out.  Only the shape of the history is fixed; objects, tables and arguments are drawn from the seed."""
 import copy
+
+import numpy as np
 
 from simcore.util import to_jsonable
 
@@ -71,6 +73,39 @@ def record(name, seed, rng, tier):
                 if rng.random() < 0.4:
                     nvar = {"qst": 3 if pool[t]["para"] else 4, "povmt": 4 if pool[t]["para"] else 8}[pool[t]["type"]]
                     steps.append({"op": "loss_eval", "loss": loss, "tomo": t, "dataset": rng.choice(ds), "loss_option": None, "loss_option_id": lo, "var": ops.rand_var(rng, nvar, 0.3)})
+    elif name == "projection_alternation":
+        # one algorithm object, one tomography object, one dataset far outside the physical region; the options agree on
+        # which constraints are enforced and differ only in *how* the projection is carried out (order, iteration cap)
+        ests = [i for i, r in enumerate(pool) if r["kind"] == "estimator" and r["cls"] == "lossmin"]
+        tomos = [i for i, r in enumerate(pool) if r["kind"] == "tomo" and r["type"] in ("qst", "povmt")]
+        loose = [i for i in tomos if not pool[i]["para"]]
+        for _ in range(3):
+            t = rng.choice(loose or tomos)
+            n_sched = len(pool[t]["testers"])
+            n = rng.choice([100, 1000])
+            skew = [rng.choice([0.0, 0.05, 0.1]) for _ in range(n_sched)]
+            rec = {"kind": "dataset", "tomo": t, "data": [[n, np.array([1.0 - e, e])] for e in skew]}
+            pool.append(rec)
+            pool0.append(rec)
+            d = len(pool) - 1
+            loss = rng.choice([i for i in gen.ids("loss") if pool[i]["cls"] in ("se", "fast_se")] or gen.ids("loss"))
+            algo = rng.choice(gen.ids("algo"))
+            lcls, acls = pool[loss]["cls"], pool[algo]["cls"]
+
+            def add(kind, cls, spec):
+                rec = {"kind": kind, "cls": cls, "spec": spec}
+                pool.append(rec)
+                pool0.append(rec)
+                return len(pool) - 1
+
+            base = dict(gen.algo_option(), eq=True, ineq=True, max_iteration=30, stopping="sum_absolute_difference_variable")
+            a_first = add("algo_option", acls, dict(base, proj_order="eq_ineq"))
+            a_order = add("algo_option", acls, dict(base, proj_order="ineq_eq", max_iteration_proj=2))
+            a_cap = add("algo_option", acls, dict(base, proj_order="eq_ineq", max_iteration_proj=1))
+            l_ident = add("loss_option", lcls, {"mode_weight": "identity"})
+            for ao in [a_first, a_order, a_first, a_cap, rng.choice([a_order, a_cap])]:
+                steps.append({"op": "estimate", "estimator": ests[0], "tomo": t, "dataset": d, "loss": loss, "algo": algo, "loss_option": None, "algo_option": None,
+                              "loss_option_id": l_ident, "algo_option_id": ao})
     else:
         raise ValueError(name)
     return {"engine": "histsim", "seed": seed, "tier": tier, "opts": {"directed": name}, "pool": to_jsonable(pool0), "steps": to_jsonable(steps)}
